@@ -17,6 +17,7 @@ BASES = [
     dict(quitonerror=0, parsing=False),
     dict(quitonerror=1, handler=True, parsing=False, validate=0),
     dict(quitonerror=0, parsing=True, msgmode=1, validate=0),
+    dict(quitonerror=0, parsing=True, msgmode=3),
 ]
 _VT = {}
 
